@@ -92,6 +92,7 @@ func (e *Engine) intrinsic(st *State, fr *Frame, fn *ssa.Function, args []Value,
 				e.stats.States++
 			}
 			s2.assume(c.Eq(v, c.BV(uint64(i), 64)))
+			s2.choice = append(s2.choice[:len(s2.choice):len(s2.choice)], i)
 			out = append(out, exit{st: s2, kind: exitReturn, val: c.BV(uint64(i), 64)})
 		}
 		return out, true
@@ -226,6 +227,26 @@ func (e *Engine) intrinsic(st *State, fr *Frame, fn *ssa.Function, args []Value,
 	case "verifZone":
 		e.opt.Zone = concreteInt(args[0], name)
 		e.zoneAssumptions(st)
+		return retExit(st, nil), true
+	case "verifZoneTable":
+		rows, info := LoadZoneTable()
+		e.zoneTable = rows
+		e.stubsUsed["zone table: "+info] = true
+		return retExit(st, nil), true
+	case "verifZoneAt":
+		e.declareZoneAt(st, args[0].(*Term), args[1].(*Term), args[2].(*Term))
+		return retExit(st, nil), true
+	case "verifZoneParams":
+		if e.zv == nil {
+			panic(unsupported("verifZoneParams without verifZoneAt"))
+		}
+		return retExit(st, TupleV{e.zv.O1, e.zv.O2, e.zv.Tau}), true
+	case "verifGoroutines":
+		return retExit(st, e.bv64(int64(len(st.parked)))), true
+	case "verifB":
+		return retExit(st, c.Ite(args[0].(*Term), e.bv64(1), e.bv64(0))), true
+	case "verifUseSummary":
+		e.summaries[concreteString(args[0], name)] = true
 		return retExit(st, nil), true
 	case "verifOffset":
 		return retExit(st, e.zone.offsetBV(st)), true
